@@ -90,7 +90,7 @@ fn main() {
                 None => {
                     // reach self-test: probes that must have been hit
                     if from == 0 && to == total && tier != Tier::Tiny {
-                        let missing: Vec<&str> = prop
+                        let missing: Vec<String> = prop
                             .required_probes()
                             .into_iter()
                             .filter(|p| outcome.stats.counters.get(&format!("probe.{}", p)).copied().unwrap_or(0) == 0)
